@@ -473,7 +473,15 @@ func squareTerm(t *Term) *Term {
 
 func checkHdiag(ctx *Ctx, r *Report, nfn *ssa.Function, ts treeSpec) {
 	ev := newEval(ctx)
-	_, st := ev.evalRoot(nfn)
+	res0, st := ev.evalRoot(nfn)
+	// the cell size the cache works with is what it stores in its resolution field (the
+	// constructor may derive it from its parameter)
+	var fieldRes *Term
+	if obj, ok := resultObject(res0, st); ok {
+		if fr, ok := fieldOf(obj, "resolution"); ok {
+			fieldRes, _ = fr.(*Term)
+		}
+	}
 	var val *Term
 	var idx *Term
 	n := 0
@@ -505,6 +513,13 @@ func checkHdiag(ctx *Ctx, r *Report, nfn *ssa.Function, ts treeSpec) {
 	if ok {
 		S := Mul(shl[0], res[0])
 		ok = equalRat(rest, Mul(S, S)) && shl[0].Args[0].IsOne()
+		if ok && fieldRes != nil {
+			// measured in cells of the stored resolution
+			coR, restR := splitCoef(stripConv(fieldRes))
+			if restR.Key() == res[0].Key() && coR.Sign() != 0 {
+				co = new(big.Rat).Quo(co, new(big.Rat).Mul(coR, coR))
+			}
+		}
 	}
 	need := big.NewRat(int64(ts.dim), 4)
 	r.check("Q3", ts.label+"|hdiag-is-half-diagonal", nfn.Pos(), ok && co.Cmp(need) >= 0,
@@ -569,32 +584,47 @@ func nonNegGivenOrderedBox(t *Term) (bool, string) {
 
 func checkRoot(ctx *Ctx, r *Report, tfn *ssa.Function, ts treeSpec) {
 	pname := ts.process[strings.Index(ts.process, ").")+2:]
-	ev := newEval(ctx, ts.newCache, pname)
+	// the constructor is executed: what counts is the cache object the root call is made on
+	// (origin and resolution fields) and the root cube it is given, wherever they are computed
+	ev := newEval(ctx, pname)
 	ev.evalRoot(tfn)
-	ncs := eventsOf(ev, "."+ts.newCache)
 	pcs := eventsOf(ev, "."+pname)
-	if len(ncs) != 1 || len(pcs) != 1 {
-		r.undecided("Q4", ts.label, tfn.Pos(), fmt.Sprintf("%d cache constructions, %d root calls", len(ncs), len(pcs)))
+	if len(pcs) != 1 || len(pcs[0].Args) < 2 {
+		r.undecided("Q4", ts.label, tfn.Pos(), fmt.Sprintf("%d root calls", len(pcs)))
 		return
 	}
-	nc := ncs[0]
-	// args: s, origin, resolution, levels
-	if len(nc.Args) != 4 {
-		r.undecided("Q4", ts.label, nc.Pos, "unexpected constructor arity")
-		return
+	nc := pcs[0]
+	var cacheObj Val
+	switch rv := pcs[0].Args[0].(type) {
+	case *Ptr:
+		if rv.Obj != nil {
+			cacheObj = getPath(pcs[0].State.mem[rv.Obj], rv.Path)
+		}
+	case *Tuple: // pointer receiver: (pointer, pointee) snapshot
+		if len(rv.Elems) == 2 {
+			cacheObj = rv.Elems[1]
+		}
 	}
 	origin := map[string]*Term{}
-	leafTerms("", nc.Args[1], origin)
-	res, _ := nc.Args[2].(*Term)
-	levels, _ := nc.Args[3].(*Term)
-	if res == nil || levels == nil || len(origin) != ts.dim {
-		r.undecided("Q4", ts.label, nc.Pos, "constructor arguments not scalar")
-		return
+	if ov, ok := fieldOf(cacheObj, "origin"); ok {
+		leafTerms("", ov, origin)
+	}
+	var res *Term
+	if rv, ok := fieldOf(cacheObj, "resolution"); ok {
+		res, _ = rv.(*Term)
 	}
 	// root cube
 	rootV := cubeArg(pcs[0], pcs[0].Args[1])
 	v, _ := fieldOf(rootV, "v")
 	n, _ := fieldOf(rootV, "n")
+	var levels *Term
+	if nt0, ok := n.(*Term); ok {
+		levels = Add(stripConv(nt0), K(1))
+	}
+	if res == nil || levels == nil || len(origin) != ts.dim {
+		r.undecided("Q4", ts.label, nc.Pos, fmt.Sprintf("the cache object's origin/resolution or the root cube's level are not in closed form: obj=%s recv=%s n=%s", shortKey(valKey(cacheObj), 200), shortKey(valKey(pcs[0].Args[0]), 80), shortKey(valKey(n), 80)))
+		return
+	}
 	okRoot := false
 	if va, ok := v.(*Agg); ok {
 		okRoot = true
